@@ -37,6 +37,18 @@ def annotation_stress(npk=12, ntypes=120):
     return files, npk * ntypes
 
 
+def excluded_stress(npk=48):
+    """every package: one ordinary file without violations and one file that the DEFAULT configuration excludes (its name
+    contains `testdata`) full of violations and annotations: a run must print nothing, however its passes are scheduled"""
+    files = {"lib/lib.go": "package lib\n\n// T is annotated.\n// @immutable\n// @constructor NewT\ntype T struct{ F int }\n\nfunc NewT() *T { return &T{} }\n\n"
+                           "// @testonly\nfunc Mock() int { return 1 }\n\n// @packageonly nobody\nfunc Internal() int { return 2 }\n"}
+    for p in range(npk):
+        files["e%d/ok.go" % p] = "package e%d\n\nimport \"w/lib\"\n\nvar _ = lib.NewT\n" % p
+        files["e%d/testdata_fixtures.go" % p] = ("package e%d\n\nimport \"w/lib\"\n\n// Local is annotated in an excluded file.\n// @immutable\ntype Local struct{ F int }\n\n"
+                                                "func fixtures(t *lib.T, l *Local) {\n\tt.F = 1\n\t_ = lib.T{}\n\t_ = lib.Mock()\n\t_ = lib.Internal()\n\tl.F = 2\n}\n" % p)
+    return files
+
+
 def write(root, files, modroot="w"):
     import os
     os.makedirs(root, exist_ok=True)
